@@ -19,6 +19,8 @@ RUNS = {"quick": 1600, "thorough": 30000}
 BUDGET_S = {"quick": 150, "thorough": 1500}
 CASES_PER_RUN = 120
 CASES_PER_LONG_RUN = 420
+FLOOD_LINES = ["  0 = N 8 0", "  96 = N 0 0", "  5 = S 64 1", "  junk", "  ", "", "  7 = E two words",
+               "  0 = B 120000", '  3 = E "section x"', "  9 = TS 4", "  1 = A 5", "  12 = N 5 0"]
 RULE = ("each evaluation is one text: a generated well-formed chart damaged by a seeded sequence "
         "of 1-8 storage faults (line drop/dup/swap/move/insert, char insert/delete/replace, "
         "truncation) or a text assembled from a fragment catalogue, kept inside the property's "
@@ -95,8 +97,14 @@ def make_plan(seed: int, tier: str, index: int) -> dict[str, Any]:
         lines = list(base)
         ops = []
         keep_structure = long_run or f.random() < 0.5
-        for _ in range(f.randint(1, 8)):
+        n_faults = f.randint(1, 8)
+        flood_at = f.randrange(n_faults) if f.random() < 0.12 else -1
+        for fi in range(n_faults):
             op = corrupt.gen_op(f, lines)
+            if fi == flood_at:
+                op = {"kind": "line_flood", "i": f.randrange(len(lines) + 1),
+                      "count": f.choice([90, 101, 128, 257, 300, 513]),
+                      "line": f.choice(FLOOD_LINES)}
             if keep_structure:
                 # aim the fault at body lines only, so that framing survives and the damage
                 # reaches the section parsers and the renderers
@@ -109,6 +117,8 @@ def make_plan(seed: int, tier: str, index: int) -> dict[str, Any]:
                 if op["kind"] == "truncate":
                     op["kind"] = "char_delete"
                     op["ch"] = ""
+                if op["kind"] == "line_flood":
+                    op["i"] = body[op["i"] % len(body)]
                 if op["kind"] == "line_insert":
                     op["line"] = "  " + op["line"].strip() if op["line"].strip() not in (
                         "{", "}") and not op["line"].strip().startswith("[") else "  0 = N 4 0"
@@ -120,9 +130,12 @@ def make_plan(seed: int, tier: str, index: int) -> dict[str, Any]:
             lines = new
             ops.append(op)
         cases.append({"kind": "damaged", "text": nl.join(lines), "fired": lines != base,
-                      "ops": [o["kind"] for o in ops]})
+                      "ops": [o["kind"] for o in ops],
+                      **({"reenter": True} if f.random() < 0.06 else {})})
+    nested_doc = gen.gen_doc(g, max_tracks=1, small=True)
+    nested_doc["unknown"] = []
     return {"property": PROP, "seed": seed, "mode": "long-history" if long_run else "batch",
-            "cases": cases, "discarded": discarded}
+            "cases": cases, "discarded": discarded, "nested_text": gen.render(nested_doc)}
 
 
 def _render_all(chart: Any) -> None:
@@ -227,12 +240,22 @@ def execute(plan: dict[str, Any]) -> dict[str, Any]:
         text = case["text"]
         for o in case.get("ops") or []:
             fired[o] = fired.get(o, 0) + 1
+        if case.get("reenter"):
+            fired["reentrant_log_handler_armed"] = fired.get("reentrant_log_handler_armed", 0) + 1
         if case["kind"] == "assembled":
             fired["fragment_assembly"] = fired.get("fragment_assembly", 0) + 1
         if case.get("fired"):
             nontrivial.append(rng.digest(text))
+        reenter = None
+        if case.get("reenter"):
+            # the application's log handler parses another (small, well-formed) chart when it
+            # receives the first record of this parse: a nested parse on the same thread
+            def reenter(nested: str = plan.get("nested_text") or "") -> None:
+                with world.shadow():
+                    world.parse_text(nested)
         try:
-            chart = world.parse_text(text, None, newline=None)
+            with world.reentrant_handler(reenter):
+                chart = world.parse_text(text, None, newline=None)
         except BaseException as e:  # noqa: BLE001
             name = type(e).__name__
             if world.is_documented_error(e):
